@@ -107,6 +107,7 @@ fn refusing_binder(refusals: Arc<AtomicU32>) -> Arc<dyn UplinkBinder> {
 struct Ghost {
     accepted: Vec<Vec<u8>>,                 // accepted client datagrams, index = tag
     tag_of: HashMap<Vec<u8>, usize>,        // content -> tag (generator makes payloads unique)
+    pre_est_tags: BTreeSet<usize>,          // tags accepted BEFORE the session was established (pre-registration forwarding)
     wire_tags: BTreeMap<u64, Vec<usize>>,   // per conn id: tags seen on the wire, in order
     routed_data: u64,                       // data packets routed since case start
     probes: BTreeMap<u64, u64>,             // per conn id: duplicate copies seen
@@ -1943,7 +1944,12 @@ impl SysComp {
                     // C04, second sentence, at WIRE level: once the session is established an uplink that is
                     // registering (not registered since its last tear-down) carries no client datagram at
                     // all - every tear-down empties its queue, nothing is enqueued on it afterwards
-                    if pre_has_connected {
+                    // (a datagram ACCEPTED before the session existed was routed by the pre-registration fallback, which
+                    // C04 does not constrain - "after the session is established, every unique copy ... is routed to" -;
+                    // it may still sit in a registering link's queue when another link's REG3 establishes the session and
+                    // leaves with the next flush: witness tools/witness/c04-prereg-queue-flushed-after-establishment.ops.
+                    // Withdrawn as demanding more than C04 states; recorded as an observation in DESIGN 13.12)
+                    if pre_has_connected && !g.pre_est_tags.contains(t) {
                         if let Some(i) = pre_ids.iter().position(|x| x == id) {
                             if i < pre.len() && pre[i].phase_reg && !pre[i].connected {
                                 mon.fail("C04", "client-data-on-registering-link", format!("link {id} was registering (not connected) when `{}` put client datagram #{t} on its wire", &op[..op.len().min(40)]));
@@ -2221,6 +2227,9 @@ impl SysComp {
                 let tag = g.accepted.len();
                 g.accepted.push(data.clone());
                 g.tag_of.insert(data.clone(), tag);
+                if !pre_has_connected {
+                    g.pre_est_tags.insert(tag);
+                }
                 let is_data = get_srt_sequence_number(&data).is_some();
                 if let Some(sq) = get_srt_sequence_number(&data) {
                     // ghost for the reload monitors (C05): the numbers the shell was handed lately
